@@ -23,7 +23,8 @@ RULE = ("ideal and two-stage continuous batteries with noise off; initial charge
         "the final reset() is distinguishable from reset(c)); `life` cases: arbitrary interleavings of charge / reset(x) / "
         "reset(x > capacity) / refused charge / reset() on ideal, continuous and stepwise batteries, always ending with "
         "reset(x), charging, reset() and a state-revealing tail whose answers are compared with a freshly constructed "
-        "battery's, plus EV.reset(); non-trivial = distinct (battery, probe parameters); second stream: "
+        "battery's, plus EV.reset(); JSON round trips and deep copies (battery / EV / list of EVs) as operations, 20% of the "
+        "probes and 15% of the life sequences run entirely on a deep copy; non-trivial = distinct (battery, probe parameters); second stream: "
         "model vs RK4 integration of the documented ODE; third: rational exp vs math.exp")
 ASSUMPTIONS = c03.ASSUMPTIONS + [
     "C14 covers the default 'continuous' calculation; the legacy 'stepwise' calculation is documented as an approximation and does not satisfy the period-splitting identity"]
@@ -80,6 +81,8 @@ def rand_probe(rng):
     spec["init"] = other_init(rng, spec["cap"], c)
     if rng.random() < 0.2:
         spec["dtype"] = rng.choice(c03.DTYPES)         # same numbers as numpy scalars / python ints / floats
+    if rng.random() < 0.2:
+        spec["copy_first"] = rng.choice(["battery", "ev", "evlist"])      # the probed object is a deep copy
     p_hi = p + rng.choice([0, 1e-6, 0.5, 1, 8, 40])
     T_long = T * rng.choice([1, 1.000001, 1.5, 2, 7])
     ops = probe_ops(c, p, p_hi, V, T, T_long)
@@ -118,8 +121,10 @@ def rand_life(rng):
             ops.append(("reset", cap + rng.choice([1e-6, 1, 50])))          # refused: nothing may change
         elif t < 0.88:
             ops.append(("reset", None))
-        elif t < 0.95:
+        elif t < 0.93:
             ops.append(("json",))
+        elif t < 0.97:
+            ops.append(("copy", rng.choice(["battery", "ev", "evlist"])))
         else:
             ops.append(("charge", 16, rng.choice([0, -1]), 5, 0.0))         # refused call
     # always: an explicit level, some charging, (maybe another level / a refused one), then reset() and the tail
@@ -128,14 +133,21 @@ def rand_life(rng):
     if rng.random() < 0.3:
         ops.append(("reset", cap + 1) if rng.random() < 0.5 else ("reset", level()))
         ops += [charge() for _ in range(rng.randint(0, 1))]
-    if rng.random() < 0.3:
+    u = rng.random()
+    if u < 0.25:
         ops.append(("json",))                           # reload from JSON between reset(x) and reset()
+    elif u < 0.5:
+        ops.append(("copy", rng.choice(["battery", "ev", "evlist"])))     # ... or continue on a deep copy
     ops.append(("reset", None))
     ops += [("charge", p, V, T, 0.0) for p, T in TAIL]
     if rng.random() < 0.4:
         ops += [("reset", None), charge()]
     if rng.random() < 0.2:
         spec["dtype"] = rng.choice(c03.DTYPES)
+    if rng.random() < 0.15:
+        spec["copy_first"] = rng.choice(["battery", "ev", "evlist"])
+    if spec["kind"] == "l2" and rng.random() < 0.5:
+        spec["ts"] = rng.choice([0, 0.25, 0.5, 0.9, 0.95])               # options a careless copy would lose
     return spec, ops
 
 
@@ -183,7 +195,7 @@ def fresh_segments(spec, ops):
                 if o[0] != "charge":
                     break
                 seg.append(o)
-            out[str(k)] = batt.run_impl(spec, seg)["obs"]
+            out[str(k)] = batt.run_impl(dict(spec, copy_first=None), seg)["obs"]      # really fresh: no copy
     return out
 
 
@@ -298,10 +310,10 @@ def monitor_life(case):
     cap, init = spec["cap"], spec["init"]
     charge, power = init, 0
     for k, (op, ob) in enumerate(zip(ops, impl["obs"])):
-        if op[0] == "json":
+        if op[0] in ("json", "copy"):
             if ob["err"] is not None or ob["charge"] != charge or ob["power"] != power:
-                return "op %d: JSON round trip changed the battery: %r, charge %r -> %r, power %r -> %r" % (
-                    k, ob["err"], charge, ob["charge"], power, ob["power"])
+                return "op %d: %s changed the battery: %r, charge %r -> %r, power %r -> %r" % (
+                    k, "JSON round trip" if op[0] == "json" else "deep copy", ob["err"], charge, ob["charge"], power, ob["power"])
         elif op[0] == "reset":
             x = op[1]
             if x is not None and x > cap:
@@ -326,7 +338,7 @@ def monitor_life(case):
                 return "op %d: refused charge call changed the state" % k
         elif ob["err"] is not None:
             return "op %d: charge raised %s" % (k, ob["err"])
-        elif op[1] == 0 and (ob["rate"] != 0 or ob["power"] != 0 or ob["charge"] != charge):
+        elif op[1] == 0 and (abs(ob["rate"]) > REL or abs(ob["power"]) > REL or abs(ob["charge"] - charge) > REL * max(1.0, cap)):
             return "op %d: zero pilot delivered something" % k
         charge, power = ob["charge"], ob["power"]
     e = impl.get("ev_reset")
@@ -343,6 +355,10 @@ def monitor(case):
     if case.get("kind") in ("qexp", "law-ode") or case.get("ambiguous"):
         return None
     spec, impl, pr = case["input"]["spec"], case["impl"], case["input"].get("probe")
+    if impl.get("originals_untouched") is False:
+        return "charging a deep copy changed the battery it was copied from"
+    if impl.get("max_charging_power") is not None and impl["max_charging_power"] != spec["maxP"]:
+        return "max_charging_power reports %r for a battery constructed with max_power %r" % (impl["max_charging_power"], spec["maxP"])
     if case["input"].get("life"):
         return monitor_life(case)
     if impl["ctor_err"] is not None or not pr:
@@ -372,7 +388,8 @@ def monitor(case):
     if obs[I_LONG]["charge"] < full["charge"] - tol:
         return "delivered energy decreased when the period was extended from %r to %r" % (T, pr["T_long"])
     z, zc = obs[I_ZERO], obs[I_PRE_ZERO]["charge"]
-    if z["rate"] != 0 or z["power"] != 0 or z["charge"] != zc:
+    # (an ideal battery that overshot capacity by one ulp gives -1e-15 back at the next call: not a violation)
+    if abs(z["rate"]) > REL or abs(z["power"]) > REL or abs(z["charge"] - zc) > tol:
         return "zero pilot delivered something: rate %r power %r charge %r -> %r" % (z["rate"], z["power"], zc, z["charge"])
     ops_ = case["input"]["ops"]
     if ops_[-2][0] == "json" and (obs[-2]["charge"] != obs[-3]["charge"] or obs[-2]["power"] != obs[-3]["power"]):
